@@ -66,6 +66,29 @@ CLAIMS["C03"] = (
     TRUSTED + "Rust move semantics: an expression moved into apply cannot also be stored unconverted.",
     "DESIGN.md §4 C03")
 
+CLAIMS["C06"] = (
+    "static analysis: THIR shape of the bump allocator (pre-update read, += increment, vacant initialisation, "
+    "increment expressions), MIR dominance of allocation by the object/static-sampler guards, extraction of the "
+    "Target->AssignBindingsParams table against the reference",
+    "Decides the allocator structurally: for each of the three allocation sites the slot returned is the map entry "
+    "before the update (0 when vacant), the entry advances by exactly 1 / slot_count / 8*slot_count, slot_count = "
+    "array length x (2 for the six raw/structured/address buffer kinds under the Metal layout, else 1), groups default "
+    "to the selected pipeline's group, static samplers and non-object globals take no slot, the inline block follows "
+    "all slots, one in-order pass over the declarations, per-target parameters equal the reference. Because the "
+    "allocator is a single in-order pass these shapes imply contiguity and non-overlap for every declaration sequence. "
+    "Does not decide that every bindable kind is an Object type layer.",
+    TRUSTED + "Reference parameter table and two-slot kinds typed into the rule (DESIGN.md App. A).",
+    "DESIGN.md §4 C06")
+CLAIMS["C07"] = (
+    "static analysis: whole-workspace call-graph reachability of ambient APIs from compile; hash-iteration-order lint "
+    "over every function (sorted-after / collected-then-sorted / keyed-sink-only / commutative / reviewed); sort-key totality",
+    "Sufficient condition for determinism: no function reachable from compile reads time, environment, files, "
+    "processes, threads or hasher seeds (metal_invoker excepted and gated on Target::MetalBytecode), and every one of "
+    "the workspace's hash-order exposure sites (13 today) is order-insensitive by construction or sorted with a total "
+    "key before its data can reach the output. A new hash iteration that is not in an automatic class is reported.",
+    TRUSTED + "std is deterministic apart from RandomState; six sites carry a one-line reviewed reason in the rule file.",
+    "DESIGN.md §4 C07")
+
 NOT_YET = "rules for this property are not built yet in this round (see DESIGN.md §10 build order); no claim is made"
 
 
